@@ -60,6 +60,9 @@ type Source struct {
 	ZeroMax  int  // max consecutive (0,nil) reads injected (progress-guaranteeing), 0 = none
 	ZeroRun  int  // when > 0: exactly this many (0,nil) reads follow every data chunk
 	Endless0 bool // return (0,nil) forever once position reaches ErrAt (no-progress scenario)
+	// ZerosBeforeErr: that many (0,nil) reads are made once the data has run out, then the error is delivered
+	// (below the 100 consecutive empty reads that count as "no progress": the error is still the source's)
+	ZerosBeforeErr int
 	// AfterErr, when non-nil, is what every Read returns AFTER Err has been delivered once (a connection that
 	// reports a reset with its last chunk and plain EOF afterwards): the first error is the source's error
 	AfterErr error
@@ -78,6 +81,8 @@ type Source struct {
 	EndReads     int // Read calls made when every byte had already been delivered
 	zeroRun      int
 	zeroOwed     int
+
+	zerosBeforeErrDone int
 	MaxAsk       int
 	Trace        func(format string, a ...interface{})
 }
@@ -114,6 +119,11 @@ func (s *Source) Read(p []byte) (int, error) {
 		}
 		if s.ErrDelivered && s.AfterErr != nil {
 			return 0, s.AfterErr
+		}
+		if !s.ErrDelivered && s.zerosBeforeErrDone < s.ZerosBeforeErr {
+			s.zerosBeforeErrDone++
+			s.ZeroReads++
+			return 0, nil
 		}
 		s.ErrDelivered = true
 		if s.Trace != nil {
